@@ -14,9 +14,23 @@ import sys
 rnd = int(sys.argv[1])
 VERIF = os.path.dirname(os.path.dirname(os.path.abspath(__file__)))
 props = [json.loads(l) for l in open(os.path.join(VERIF, "properties.jsonl")) if l.strip()]
-words = {2: "two", 4: "four", 6: "six", 8: "eight", 10: "ten", 12: "twelve", 14: "fourteen"}
+words = {16: "sixteen", 2: "two", 4: "four", 6: "six", 8: "eight", 10: "ten", 12: "twelve", 14: "fourteen"}
 
 STEER = {
+    9: ("Read the code the property is anchored in AND the code it relies on elsewhere in the repository and in its dependencies, and look for places the list above has not touched. "
+        "This round, prefer changes of these kinds: (a) the public API AROUND the main entry points - exported helpers, option constructors and their defaults, URL builders, exported "
+        "error values and error types that callers test with errors.Is / errors.As, exported variables and command-line flags of the packages that a caller may set between calls - "
+        "where a change breaks the property for a caller who uses that API as documented; (b) the less common but genuine shapes of Intel's data: processor-CA instead of platform-CA "
+        "certificates, the optional members of the SGX extension, TCB Infos with several TDX module identities, several TCB levels with equal dates or equal SVNs, quotes with the "
+        "optional trailing bytes, certificate chains and CRLs as the real PCS sends them (encodings, header spellings, several header values); (c) two settings, options or flags that "
+        "interact: each behaves correctly alone, the defect needs both (or needs one to be set and another left at its zero value); (d) work that grows faster than the input: a "
+        "quadratic scan, a retry that never gives up, recursion on attacker-controlled depth - for properties that promise an answer, a call that does not come back within minutes on "
+        "an input of a few hundred kilobytes is a violation; (e) cleanup and state on the error paths: a deferred restore that is skipped on one return, a field of the caller's "
+        "Options or message left half-updated after a failure, a temporary file or configfs entry left behind that changes the next call. "
+        "A generated-input harness that already covers single-field mutations, boundary values, permutations, concurrency, 32-bit builds, time-shifted worlds, call histories on one "
+        "Options value, long histories over hundreds of distinct inputs, byte-level differential testing of the parsers against reference readers, transient failures and races of "
+        "devices / getters / the TSM, the process environment (certificate store, GODEBUG, TZ, log verbosity), hand-crafted DER (odd serial numbers, look-alike certificates) and the "
+        "check tool's flag / config grid should still be likely to miss the change."),
     8: ("Read the code the property is anchored in AND the code it relies on elsewhere in the repository and in its dependencies, and look for places the list above has not touched. "
         "This round, work from the PROPERTY TEXT: split the statement into its clauses (every 'and', every 'only if', every 'never', every item of the quantification) and pick the "
         "clauses the earlier changes touched least - a clause that reads like an afterthought is a good candidate. Then prefer changes of these kinds: (a) legal but rare forms at the "
